@@ -1,7 +1,7 @@
 #!/bin/sh
-# usage: tools/seed_verify.sh <prop> <i>   -- confirms a sub-agent's change i in its scratch worktree /tmp/wt-<prop> and runs our check against it
-# prints: demo(clean) demo(patched) suite(patched) check(patched)
-prop=$1; i=$2; wt=/tmp/wt-$prop; out=$wt/seeded_out
+# usage: tools/seed_verify.sh <prop> <i> [worktree]  -- confirms a sub-agent's change i in its scratch worktree (default /tmp/wt-<prop>)
+# and runs our check of <prop> against it.  prints: demo(clean) demo(patched) suite(patched) check(patched)
+prop=$1; i=$2; wt=${3:-/tmp/wt-$prop}; out=$wt/seeded_out
 cd $wt || exit 3
 git checkout -q -- . 
 /venv/bin/python seeded_out/demo$i.py >/tmp/sv_demo_clean.txt 2>&1; d0=$?
